@@ -54,8 +54,8 @@ SLOW_ARMS = ("fresh",)
 
 def arms(tier):
     if tier == "thorough":
-        return [("mixed", 800_000), ("dist", 800_000), ("fresh", 40_000)]
-    return [("mixed", 27_000), ("dist", 27_000), ("fresh", 1_600)]
+        return [("mixed", 800_000), ("dist", 800_000), ("fresh", 16_000)]
+    return [("mixed", 27_000), ("dist", 27_000), ("fresh", 640)]
 
 
 def hist_slice(tier):
